@@ -147,6 +147,39 @@ theorem ef_push_rejects {n : Nat} (hu : u < 2 ^ 64)
   rw [getLast?_getD] at hbad
   exact push_panic (binv_of_new hu (fits_of_len n u hn) hb) v hbad
 
+/-- `push_unchecked` under its documented contract (not full, `v ≤ u`, `v` not below the last value,
+whichever of the two methods added it) IS `push`: a history that mixes the two public insertion
+methods reaches exactly the states of the all-`push` history, so `ef_push_accepts_iff` /
+`ef_push_rejects` speak about mixed histories too (in particular a checked push below a value added
+by `push_unchecked` is rejected: both update `last`) -/
+theorem ef_push_unchecked_is_push (b : Builder) (v : Nat)
+    (hc : b.count ≠ b.n) (hu : v ≤ b.u) (hl : b.last ≤ v) : b.pushUnchecked v = b.push v := by
+  unfold Builder.push
+  have h1 : (b.count == b.n) = false := by simpa using hc
+  have h2 : ¬ v > b.u := by omega
+  have h3 : ¬ v < b.last := by omega
+  simp [h1, h2, h3]
+
+/-- … and it records the value it added: the next checked push compares against it -/
+theorem ef_push_unchecked_records_last (b b' : Builder) (v : Nat) (h : b.pushUnchecked v = .ok b') :
+    b'.last = v ∧ b'.count = b.count + 1 := by
+  unfold Builder.pushUnchecked at h
+  cases h1 : BFV.set 64 b.low b.count (v &&& lowMask b.l) with
+  | panic => simp [h1, Bind.bind, Out.bind] at h
+  | oob => simp [h1, Bind.bind, Out.bind] at h
+  | ok lowS =>
+    cases h2 : addC (v >>> b.l) b.count with
+    | panic => simp [h1, h2, Bind.bind, Out.bind] at h
+    | oob => simp [h1, h2, Bind.bind, Out.bind] at h
+    | ok hi =>
+      cases h3 : BV.set b.high hi true with
+      | panic => simp [h1, h2, h3, Bind.bind, Out.bind] at h
+      | oob => simp [h1, h2, h3, Bind.bind, Out.bind] at h
+      | ok highS =>
+        simp [h1, h2, h3, Bind.bind, Out.bind, Pure.pure] at h
+        subst h
+        exact ⟨rfl, rfl⟩
+
 /-- `build` refuses a builder that received fewer than `n` values -/
 theorem ef_build_too_few (h : Input xs u) (n : Nat) (hn : xs.length < n)
     (hlen : n + 2 * max n 1 < 2 ^ 64) : build n u xs = .panic :=
